@@ -74,7 +74,7 @@ def judge(rec, opts):
         out.append((f"unlimited:{f['clause']}:{constructs(rec)}", f))
         return out
     eout = replay.conc(exp["out"])
-    nbytes = lambda s: len(s.encode("utf-8"))  # noqa: E731
+    nbytes = lambda s: len(s.encode("utf-8", "surrogatepass"))  # noqa: E731
     for L in sorted({m["outbytes"] - 1, m["outbytes"], m["outbytes"] + 1, m["peak"] - 1, m["peak"], m["peak"] + 1, HUGE}):
         if L < 1:
             continue
